@@ -179,6 +179,29 @@ theorem static_removeoverlaps_x_last_pass (rs : Array Rect) (bx b extra : Rat) (
   · left; rw [hh i, hh j] at h; linarith
   · right; rw [hh i, hh j] at h; linarith
 
+/-- **static_removeoverlaps_y_satisfy**: for `satisfy()` the condition "returns normally" has exactly one
+    alternative: on the vertical-pass constraints the static solver's `satisfy()` either throws
+    `UnsatisfiedConstraint` from its exit scan, or it returns and every pair of rectangles that meets in x
+    is separated (up to `n·1e-10`) — it never runs out of the model's fuel. -/
+theorem static_removeoverlaps_y_satisfy (rs : Array Rect) (bx b : Rat) (rank : Nat → Nat)
+    (inj : RankInjective rank) (evs : List Ev) (hv : ValidOrder (yAxis rs bx b) rs.size evs)
+    (hgood : GoodAxis (yAxis rs bx b) rs.size) (vs : Array (Rat × Rat × Rat))
+    (hrange : ∀ c ∈ generateYConstraints rs bx b rank evs, c.l < vs.size ∧ c.r < vs.size) :
+    (∃ s, (SSt.init vs (toVpsc (generateYConstraints rs bx b rank evs))).satisfy = (s, .threw)) ∨
+    (∃ s' pos ret, (SSt.init vs (toVpsc (generateYConstraints rs bx b rank evs))).satisfy = (s', .ok pos ret) ∧
+      ∀ i j, i < rs.size → j < rs.size → i ≠ j → ScanMeet (yAxis rs bx b) i j →
+        s'.st.uval i + ((rectAt rs i).height b + (rectAt rs j).height b) / 2 - (vs.size : Rat) / 10000000000
+            ≤ s'.st.uval j ∨
+        s'.st.uval j + ((rectAt rs i).height b + (rectAt rs j).height b) / 2 - (vs.size : Rat) / 10000000000
+            ≤ s'.st.uval i) := by
+  rcases AdaptaVerif.Props.C01Static.static_satisfy_total vs (toVpsc (generateYConstraints rs bx b rank evs))
+    (toVpsc_wf _ vs.size hrange) with ⟨s', pos, ret, h⟩ | h
+  · right
+    refine ⟨s', pos, ret, h, fun i j hi hj hij hmeet => ?_⟩
+    exact static_removeoverlaps_y_separates rs bx b rank inj evs hv hgood vs hrange false s' pos ret
+      (by simpa using h) i j hi hj hij hmeet
+  · exact Or.inl h
+
 /-! ### non-vacuity: the two overlapping squares of `Lemmas/ScanlineExample`, one vertical pass -/
 
 open AdaptaVerif.Lemmas.Scanline.Example in
